@@ -8,6 +8,8 @@ B_Attempts == {"a1", "a2", "a3"}
 B_DirOf == [a \in B_Attempts |-> IF a = "a3" THEN "out" ELSE "in"]
 C_Attempts == {"a1", "a2"}
 C_DirOf == [a \in C_Attempts |-> "in"]
+D_Attempts == {"a1", "a2", "a3"}
+D_DirOf == [a \in D_Attempts |-> IF a = "a1" THEN "in" ELSE "out"]
 
 \* the exits of the model, printed once: the driver compares them with the exits the fault enumeration hit
 ASSUME PrintT(<<"VFEXITS", ToJson([exits |-> ExitTable])>>)
